@@ -1198,6 +1198,24 @@ func (x *c07ctx) r4() bool {
 		c.Undecided("C07.R4:exit-closure", r4, "", "the function stored in ExitFunc is not a function literal reachable through the constructor")
 		return false
 	}
+	// who may delete: the exit closure removes its entry by ID on every path (rule
+	// below), so a second remover anywhere else makes that later delete-by-ID hit a
+	// successor session created in between (the successor is orphaned: never swept,
+	// never closed at connection end)
+	isExitFn := map[*ssa.Function]bool{}
+	for _, e := range exits {
+		isExitFn[e.fn] = true
+	}
+	for _, fr := range fieldRefs(x.srvFns, x.fM) {
+		if fr.Kind != "load" {
+			continue
+		}
+		for _, mo := range mapOpsOn(fr.Val) {
+			if mo.Kind == "delete" {
+				c.Req(isExitFn[fr.Fn], x.uniq("C07.R4:delete-only-in-exit-closure:"+fnName(fr.Fn)), r4, p.InstrPos(mo.Instr), "a session is removed from the table outside its exit closure; the exit closure still deletes by session ID afterwards and can remove a new session that reused the ID in between")
+			}
+		}
+	}
 	for _, e := range exits {
 		c.Saw(fnName(e.fn))
 		key := "C07.R4:exit-closure:" + fnName(e.fn)
